@@ -193,6 +193,7 @@ func buildKeySubst(p *Prog) {
 			})
 		}
 	}
+	straightLineHelperKeys(p, pkgs, declOf)
 }
 
 func infoOfDecl(p *Prog, fd *ast.FuncDecl) *types.Info {
@@ -789,6 +790,114 @@ func desugarShortCircuitReturns(p *Prog, pkgs []*packages.Package) {
 				c.Replace(&ast.ReturnStmt{Return: rs.Return, Results: []ast.Expr{be.Y}})
 				return true
 			}, nil)
+		}
+	}
+}
+
+// straightLineHelperKeys (M3): a call, inside an expression, of an unexported helper of the same
+// package whose body is straight-line assignments followed by `return v` gets as its canonical key
+// the key of the expression v stands for at that return (followed through the helper's own
+// definitions), with the receiver and the parameters replaced by the receiver expression and the
+// arguments - e.g. `d.consumers(id)` with `count, _ = d.counter.Get(id); return count` is keyed as
+// `d.counter.Get(id)`. Key level only (the syntax tree is left alone); arguments must be pure.
+func straightLineHelperKeys(p *Prog, pkgs []*packages.Package, declOf map[*types.Func]*ast.FuncDecl) {
+	type summary struct {
+		expr ast.Expr
+		ok   bool
+	}
+	sums := map[*ast.FuncDecl]summary{}
+	summarise := func(info *types.Info, fd *ast.FuncDecl) summary {
+		if sm, done := sums[fd]; done {
+			return sm
+		}
+		sums[fd] = summary{}
+		n := len(fd.Body.List)
+		if n < 2 || n > 6 {
+			return summary{}
+		}
+		for _, st := range fd.Body.List[:n-1] {
+			if _, isAs := st.(*ast.AssignStmt); !isAs {
+				return summary{}
+			}
+		}
+		rs, isRet := fd.Body.List[n-1].(*ast.ReturnStmt)
+		if !isRet || len(rs.Results) != 1 {
+			return summary{}
+		}
+		if _, isId := ast.Unparen(rs.Results[0]).(*ast.Ident); !isId {
+			return summary{}
+		}
+		hf := newFuncCFGPlain(p, info, fd.Body, fd.Name.Name)
+		pts := hf.Find(func(m ast.Node) bool { return m == ast.Node(rs) })
+		if len(pts) != 1 {
+			return summary{}
+		}
+		re, _ := hf.ResolveToCall(rs.Results[0], pts[0])
+		if re == nil || re == rs.Results[0] {
+			return summary{}
+		}
+		sm := summary{re, true}
+		sums[fd] = sm
+		return sm
+	}
+	for _, pk := range pkgs {
+		if _, skip := noInlinePkgs[pk.PkgPath]; skip {
+			continue
+		}
+		info := pk.TypesInfo
+		for _, f := range pk.Syntax {
+			if strings.HasSuffix(p.Fset.Position(f.Pos()).Filename, "_test.go") {
+				continue
+			}
+			ast.Inspect(f, func(n ast.Node) bool {
+				cl, ok := n.(*ast.CallExpr)
+				if !ok {
+					return true
+				}
+				if _, has := keySubst[cl]; has {
+					return true
+				}
+				fn := staticCallee(info, cl)
+				if fn == nil {
+					return true
+				}
+				fd := declOf[fn.Origin()]
+				if fd == nil || fd.Name.IsExported() || fd.Body == nil {
+					return true
+				}
+				if _, same := info.Defs[fd.Name]; !same {
+					return true
+				}
+				sm := summarise(info, fd)
+				if !sm.ok {
+					return true
+				}
+				env := map[types.Object]string{}
+				if fd.Recv != nil && len(fd.Recv.List) == 1 && len(fd.Recv.List[0].Names) == 1 {
+					se, isSel := ast.Unparen(cl.Fun).(*ast.SelectorExpr)
+					if !isSel || !pureExpr(info, se.X) {
+						return true
+					}
+					env[info.Defs[fd.Recv.List[0].Names[0]]] = exprKey(se.X)
+				}
+				i := 0
+				for _, fl := range fd.Type.Params.List {
+					for _, nm := range fl.Names {
+						if i >= len(cl.Args) || !pureExpr(info, cl.Args[i]) {
+							return true
+						}
+						env[info.Defs[nm]] = exprKey(cl.Args[i])
+						i++
+					}
+				}
+				if i != len(cl.Args) {
+					return true
+				}
+				if k := exprKeyEnv(sm.expr, info, env); !strings.Contains(k, "?") {
+					keySubst[cl] = k
+				}
+				return true
+			})
 		}
 	}
 }
